@@ -283,3 +283,33 @@ def jac_iv(vc):
     vc.ensure_sum_plus('d (J S0)[i, c] / d x_a = sum_b diff_jacobian[i*nS + a, b] * S0[b, c]', M.get((p0(i, c), a)), nS,
                        lambda bb: DJ.get((i * nS + a, bb)) * z.get((p0(bb, c),)), z3.RealVal(0))
     vc.canary('canary: reachable', z3.BoolVal(False))
+
+
+@contract('C13/ode_and_sensitivityIV_jacobian/no-parameters', ['C13'], DET + 'ode_and_sensitivityIV_jacobian', replay=replay_c13, max_paths=800, timeout_ms=60000)
+def jac_iv_no_param(vc):
+    """a model without parameters: the Jacobian of [f | vecF(J S0)] over [x | s0] is [[J, 0], [A, I (x) J]] with A the x-derivative of J S0"""
+    nS = vc.int('nS', ge=1)
+    nP = 0
+    obj, J, G, f, calls = model(vc, nS, nP)
+    DJ = vc.array('DJ', (nS * nS, nS))
+    N = nS + nS * nS
+    z = vc.array('z', (N,))
+    t = vc.real('t')
+    obj.fields['diff_jacobian'] = Builtin('diff_jacobian', lambda it, a, k: DJ.copy())
+    out = vc.call(vc.func(DET + 'ode_and_sensitivityIV_jacobian'), obj, z, t)
+    vc.ensure('returns normally', out.returned)
+    if not out.returned:
+        return
+    M = out.value
+    vc.ensure('a square matrix over [x | s0]', isinstance(M, SArr) and M.rank == 2 and z3.And(to_num(M.shape[0]) == N, to_num(M.shape[1]) == N))
+    i, i2, a, b, c, c2 = (z3.Int(n) for n in ('q_i', 'q_i2', 'q_a', 'q_b', 'q_c', 'q_c2'))
+    vc.assume(z3.And(i >= 0, i < nS, i2 >= 0, i2 < nS, a >= 0, a < nS, b >= 0, b < nS, c >= 0, c < nS, c2 >= 0, c2 < nS))
+    vc.hint_blocks([(c, i), (c2, i2), (i, a), (c, i * nS + a), (c * nS + i, a), (i, c), (i2, c2)])
+    p0 = lambda ii, cc: nS + ii + cc * nS
+    E = lambda name, g: vc.ensure(name, g, isolated=True)
+    E('d f_a / d x_b = J[a, b]', M.get((a, b)) == J.get((a, b)))
+    E('d f_a / d S0 = 0', M.get((a, p0(i, c))) == 0)
+    E('d (J S0)[i, c] / d S0[i2, c2] = J[i, i2] * [c == c2]', M.get((p0(i, c), p0(i2, c2))) == z3.If(c == c2, J.get((i, i2)), 0.0))
+    vc.ensure_sum_plus('d (J S0)[i, c] / d x_a = sum_b diff_jacobian[i*nS + a, b] * S0[b, c]', M.get((p0(i, c), a)), nS,
+                       lambda bb: DJ.get((i * nS + a, bb)) * z.get((p0(bb, c),)), z3.RealVal(0))
+    vc.canary('canary: reachable', z3.BoolVal(False))
